@@ -1341,6 +1341,39 @@ def enum_dtc_sources():
                 yield c, [x[0] for x in (A, B, C, E, F)]
 
 
+def enum_table_keys():
+    """TABLE-KEY parameters in every arrangement: row selected by the PDU (TABLE-REF) or statically (TABLE-ROW-REF: the key occupies NO bits)
+    x with / without the TABLE-STRUCT that uses it x nothing / a byte in front / a byte behind x key DOP of 4, 8 or 16 bits, in
+    `[sid, (x), tk, (ts), (y)]`; yields (composite, value). (Whatever is reported as static — or not — for such an object must agree with what is
+    encoded.)"""
+    n = 0
+    for kbits in (8, 16, 4):
+        for static_row in (False, True):
+            for with_struct in (False, True):
+                for before in (False, True):
+                    for after in (False, True):
+                        n += 1
+                        kd = D.u8(kbits)
+                        rows = [D.TableRow("r1", 1, struct=D.Struct([D.value("a", D.u8())])), D.TableRow("r2", 2, dop=D.u8(16))]
+                        t = D.Table(kd, rows)
+                        ps = [D.sid()] + ([D.value("x", D.u8())] if before else [])
+                        ps.append(D.table_key("tk", t, row="r2" if static_row else None))
+                        if with_struct:
+                            ps.append(D.table_struct("ts", "tk"))
+                        if after:
+                            ps.append(D.value("y", D.u8()))
+                        val = {}
+                        if before:
+                            val["x"] = 0x11
+                        if after:
+                            val["y"] = 0x22
+                        if not static_row:
+                            val["tk"] = "r2"
+                        if with_struct:
+                            val["ts"] = ("r2", 0x1234)
+                        yield D.Composite(f"TK{n}", "request", ps), val
+
+
 # ------------------------------------------------------------------ measured input distribution
 def features(comp):
     """histogram keys of a composite: (histogram name, key) pairs"""
